@@ -35,6 +35,7 @@ class Ctx:
         self.work = os.path.join(WORK, prop)
         shutil.rmtree(self.work, ignore_errors=True)
         os.makedirs(self.work, exist_ok=True)
+        shutil.rmtree(os.path.join(REPLAYS, prop), ignore_errors=True)   # replays of earlier runs are stale
         self.violations = []       # (replay_path, no_failing_input)
         self.known_hits = []
         self.cov = {}
@@ -292,13 +293,21 @@ def _run_once(binary, lines, timeout, env):
     return rc, outl, err
 
 
-def run_lines(binary, lines, timeout=300, env=None, max_restarts=40):
+def run_lines(binary, lines, timeout=300, env=None, max_restarts=40, sticky="schema "):
     """Feed protocol lines; returns (rc, one output line per input line, stderr).
     If the process dies on line k (sanitizer report, signal, timeout) that line's output is
-    `<crash rc=..>` and the run resumes after it, so one fault does not hide the rest."""
+    `<crash rc=..>` and the run resumes after it, so one fault does not hide the rest.
+    Lines starting with `sticky` set process state: the latest one is re-sent on resume."""
     out, errs, rc_first, pos, restarts = [], "", 0, 0, 0
     while pos < len(lines):
-        rc, o, err = _run_once(binary, lines[pos:], timeout, env)
+        pre = []
+        if pos > 0 and sticky:
+            for j in range(pos - 1, -1, -1):
+                if lines[j].startswith(sticky):
+                    pre = [lines[j]]
+                    break
+        rc, o, err = _run_once(binary, pre + lines[pos:], timeout, env)
+        o = o[len(pre):] if len(o) >= len(pre) else []
         n = len(lines) - pos
         if rc == 0 and len(o) >= n:
             out += o[:n]
@@ -314,6 +323,30 @@ def run_lines(binary, lines, timeout=300, env=None, max_restarts=40):
             out += ["<skipped>"] * (len(lines) - pos)
             break
     return rc_first, out, errs
+
+
+def run_blocks(binary, blocks, chunks=16, timeout=900, env=None):
+    """blocks: list of line lists, each starting with its state-setting line. Blocks are distributed over
+    `chunks` concurrent processes; output is returned in the original order, flattened."""
+    chunks = max(1, min(chunks, len(blocks)))
+    groups = [[] for _ in range(chunks)]
+    for i, b in enumerate(blocks):
+        groups[i % chunks].append(i)
+    def job(g):
+        lines = [l for i in g for l in blocks[i]]
+        return run_lines(binary, lines, timeout, env)
+    with ThreadPoolExecutor(chunks) as ex:
+        rs = list(ex.map(job, groups))
+    outs = [None] * len(blocks); rc = 0; err = ""
+    for g, (r, o, e) in zip(groups, rs):
+        if r != 0 and rc == 0:
+            rc = r
+        err += e
+        k = 0
+        for i in g:
+            outs[i] = o[k:k + len(blocks[i])]; k += len(blocks[i])
+    flat = [l for o in outs for l in o]
+    return rc, flat, err
 
 
 def run_parallel(binary, lines, chunks=8, timeout=600, env=None):
